@@ -31,7 +31,7 @@ from ..engine.report import AnalysisError, Run
 from ..engine.resolver import ClassInfo, FuncInfo, Program, body_walk
 from ..engine.normalize import positional
 from ..engine.util import canon, method_call, u
-from ._c06_util import (Flow, HelperCalls, cmp_eval, expr_guards, indent_of, inline_all, lifted, names_eq, private_callee, pruned, seg, spliced, src_patch,
+from ._c06_util import (Flow, HelperCalls, cmp_eval, expr_guards, first_run_sync_name, indent_of, inline_all, lifted, names_eq, private_callee, pruned, seg, spliced, src_patch,
                         stmt_patch, transitive_helpers, tri, truth_atom)
 from .c13 import _self_fields, step_classes, step_interp
 
@@ -891,7 +891,7 @@ def _fmt(tokens: list[Any]) -> str:
 def check_eval(run: Run, prog: Program) -> None:
     raw = prog.func(f"{EVAL}:FormulaEvaluator.apply")
     run.analysed(raw.qual)
-    fn = spliced(prog, raw)
+    fn = inline_all(prog, raw, stop={first_run_sync_name(prog)})  # one evaluation as a unit, wherever its parts live
     fl = Flow(prog, fn)
     cfg = fl.cfg
     normal = lambda a, b, lab: not lab.startswith("exc:")  # noqa: E731
